@@ -39,6 +39,7 @@ fn finish(mut w: World, trace: Trace) -> RunOutcome {
         drop(handles);
         let _ = seam::drain_events();
     }
+    seam::end_run();
     w.stats.faults_fired = tok::faults_fired();
     w.stats.trace_ticks = tok::ticks();
     RunOutcome {
